@@ -25,7 +25,7 @@ PROP = "C05"
 LEVEL = "exploration"
 WIDTHS = [1, 2, 3, 4, 7, 8]
 # "view" / "viewvar": the target is a typed view (.signed / .unsigned / .bitvector) of a signal / variable whose own type differs
-FORMS = ["assign", "next", "var", "value", "push", "pushattr", "slice", "element", "ite", "ret", "port", "view", "viewvar", "itefull", "itenull", "retfull", "retnull"]
+FORMS = ["assign", "next", "var", "value", "push", "pushattr", "slice", "element", "ite", "ret", "port", "view", "viewvar", "itefull", "itenull", "retfull", "retnull", "always"]
 MERGE_LIT = {"itefull": "Full", "itenull": "Null", "retfull": "Full", "retnull": "Null"}  # the other branch of the merge is a literal
 VIEW_ROOT = {"S": "U", "U": "S", "BV": "U"}
 VIEW_ATTR = {"S": "signed", "U": "unsigned", "BV": "bitvector"}
@@ -62,15 +62,18 @@ def cases():
             continue
         for t in T:
             for f in ("next", "var"):
-                for sf in ("viewport", "localsig", "localvar"):
+                for sf in ("viewport", "localsig", "localvar", "localsigcond"):
                     out.append({"src": list(s), "tgt": list(t), "form": f, "sform": sf})
     # the SOURCE is the result of an operator (a temporary of the source type, same value: s | s) instead of a plain object
     for s in T:
         if s[0] == "Bit":
             continue
         for t in T:
-            for f in ("assign", "next", "var", "ite", "ret", "itefull", "element"):
+            for f in ("assign", "next", "var", "ite", "ret", "itefull", "element", "always"):
                 out.append({"src": list(s), "tgt": list(t), "form": f, "sform": "temp"})
+            # ... and an operator result read through a typed view (the view's type decides the conversion)
+            for f in ("assign", "next", "always"):
+                out.append({"src": list(s), "tgt": list(t), "form": f, "sform": "tempview"})
     for t in T:
         for lit in ("int:0", "int:1", "int:5", "int:-1", "int:-3", "int:max", "int:max+1", "int:min", "int:min-1", "Null", "Full", "True", "str"):
             for f in LIT_FORMS:
@@ -172,10 +175,18 @@ def render_src(c):
     if sf == "temp":
         H.append(f"    s = Port.input({tstr(s)})")
         src = "(self.s | self.s)"
+    elif sf == "tempview":
+        H.append(f"    s = Port.input({tstr((VIEW_ROOT[s[0]], s[1]))})")
+        src = f"(self.s | self.s).{VIEW_ATTR[s[0]]}"
     elif sf:
         root = (VIEW_ROOT[s[0]], s[1])
         H.append(f"    s = Port.input({tstr(root)})")
-        if sf == "viewport":
+        if sf == "localsigcond":
+            # the local signal is initialised from an if-expression whose other alternative is a literal (the alternatives
+            # are redirected into the new signal one by one)
+            pre = [f"    x = Signal[{tstr(root)}](self.s if self.c else Full)"]
+            src = f"x.{VIEW_ATTR[s[0]]}"
+        elif sf == "viewport":
             src = f"self.s.{VIEW_ATTR[s[0]]}"
         else:
             pre = [f"    x = {'Signal' if sf == 'localsig' else 'Variable'}[{tstr(root)}](self.s)"]
@@ -197,6 +208,9 @@ def render_src(c):
         B = ["@std.concurrent", "def p():", f"    self.o <<= {src}"]
     elif f == "next":
         B = [clk, "def p():"] + pre + [f"    self.o.next = {src}"]
+    elif f == "always":
+        # the assignment is hoisted out of the process with cohdl.always (its temporaries become signals)
+        B = [clk, "def p():", "    with cohdl.always:", f"        self.o <<= {src}"]
     elif f == "var":
         B = [f"v = Variable[{tstr(t)}](Null)", clk, "def p():", "    nonlocal v"] + pre + [f"    v @= {src}", "    self.o <<= v"]
     elif f == "value":
